@@ -92,7 +92,7 @@ func c18(r *core.Run) {
 	r.Rule("C18/R3", "delete is recipient-only: the inbox (leading) component of the deleted key ⊵ signer only")
 	r.Rule("C18/R4", "the only handler that writes Notification-typed records is notifications.MsgCreateNotification")
 	r.Rule("C18/R6", "success implies the effect: a successful create has written the notification, a successful delete has deleted it")
-	r.Rule("C18/R9", "blocking acts when a notification is sent, never afterwards: the block list is consulted (the block predicate, or a Has on a block key) only on the CreateNotification path — no query, listing or deletion filters what is already in an inbox by the recipient's current block list")
+	r.Rule("C18/R9", "blocking acts when a notification is sent, never afterwards: the block list is consulted (the block predicate, or a Has on a block key) only on the CreateNotification path and in the handlers that write the block list itself — no query, listing or deletion filters what is already in an inbox by the recipient's current block list")
 	r.Rule("C18/R8", "what is stored is what was sent: the notifications record setters marshal their parameter unmodified and write on every path, and the module's key builders write each parameter into the key exactly once")
 	r.Rule("C18/R7", "every listed sender is blocked: the loop over msg.ToBlock that writes the block entries is left only when the list is exhausted or by a failing return")
 	r.Rule("C18/R5", "the inbox listing iterates the prefix '<address>/' and notification keys start with '<to>/'")
@@ -109,6 +109,23 @@ func c18(r *core.Run) {
 		if hc := core.HandlerByKey(hs, "notifications.MsgCreateNotification"); hc != nil {
 			for _, f := range p.Summary(hc.Fn).Funcs {
 				allowed[f] = true
+			}
+		}
+		// ... and the handlers that maintain the block list itself may read it (skip an entry that is already there)
+		for _, h := range hs {
+			if h.Module != "notifications" {
+				continue
+			}
+			writesBlocks := false
+			for _, o := range p.Summary(h.Fn).Store {
+				if o.IsWrite() && o.Module+"/"+o.Prefix == ntfPrefix && len(p.KeyComponents(o.Key, o.Instr)) == 2 {
+					writesBlocks = true
+				}
+			}
+			if writesBlocks {
+				for _, f := range p.Summary(h.Fn).Funcs {
+					allowed[f] = true
+				}
 			}
 		}
 		nUse := 0
